@@ -189,10 +189,9 @@ theorem acceptMsg_good (C : Crypto) (L : Loc) (e : Ep) (m : HsMsg) : Good e (acc
   unfold acceptMsg
   dsimp only
   repeat' split
-  · simp [Good, ok]
-  · simp [Good, ok]
-  · exact Good.of_pre (by simp) (by simp) (handleMsg_good ..)
-  · exact Good.of_pre (by simp) (by simp) (handleMsg_good ..)
+  all_goals first
+    | exact Good.of_pre (by simp) (by simp) (handleMsg_good ..)
+    | simp [Good, ok]
 
 theorem gate_good (C : Crypto) (L : Loc) (e : Ep) (a : Bool) (m : HsMsg) : Good e (gate C L e a m) := by
   unfold gate
